@@ -20,8 +20,8 @@ def result : Batch := ⟨1008, 1, 1100⟩
 
 /-- unary: buffer size 1 008 ≤ 1 013 passes the pre-flight, 1 296 bytes are uploaded, and only then the response is
     turned into the external-cap error: refused, but not before upload -/
-example : unaryRespond pinned cfg 200 8 900 result 1296 300 = ⟨.errExt, 900, [1296]⟩ := by rfl
-example : ¬ ExternalOk cfg.extCap (obs (unaryRespond pinned cfg 200 8 900 result 1296 300)) := by
+example : unaryRespond pinned cfg 150 200 8 700 result 1296 300 = ⟨.errExt, 858, [1296]⟩ := by rfl
+example : ¬ ExternalOk cfg.extCap (obs (unaryRespond pinned cfg 150 200 8 700 result 1296 300)) := by
   intro h
   have := (h 1013 rfl).2 rfl
   simp [obs, unaryRespond, pinned, cfg, result, flushBatch, predictBatch, capHit, budgetRefuses, enforce, Cmp.holds,
@@ -43,7 +43,7 @@ example : ¬ ProducerOk cfg.wireCap cfg.extCap 200 (producerTurn pinned cfg 200 
 /-- the pinned shape is not `Sound`; the working tree's is (`shape_sound`), and there both payloads are refused with
     nothing uploaded -/
 example : ¬ Sound pinned := fun h => by have := h.unaryPasses; simp [pinned] at this
-example : unaryRespond' cfg 200 8 900 result 1296 300 = ⟨.errExt, 900, []⟩ := by rfl
+example : unaryRespond' cfg 150 200 8 700 result 1296 300 = ⟨.errExt, 908, []⟩ := by rfl
 example : (producerTurn' cfg 200 150 8 script).kind = .errExt ∧ (producerTurn' cfg 200 150 8 script).uploads = [] := by
   constructor <;> rfl
 
